@@ -93,6 +93,60 @@ def run_order(kind: str, is_async: bool, mode: str, a0: int, b0: int, s0: int, i
     return ok, witness
 
 
+_SHARED = {}  # type: Dict[str, Any]
+
+
+def run_shared_predicate(kind_i: int, tp: bool, tq: bool) -> Tuple[bool, bool]:
+    """Base.m ensures pred (error E_base); Derived.m ensures other (E_other) and, stacked above, pred again (E_derived):
+    the error raised is that of the FIRST falsy postcondition in evaluation order (inherited first)."""
+    import icontract
+    from vfw.hlib import untraced
+    kind_i = conc(kind_i, 0, 1)
+    with untraced():
+        w = _SHARED.get(kind_i)
+        if w is None:
+            w = {"truth": {}, "log": []}
+            hw = w
+
+            def pred(result: Any) -> Any:
+                hw["log"].append("pred")
+                return hw["truth"]["pred"]
+
+            def other(result: Any) -> Any:
+                hw["log"].append("other")
+                return hw["truth"]["other"]
+
+            def body(self: Any) -> Any:
+                return 1
+            fb = icontract.ensure(pred, error=lambda: Tag("E_base"))(body)
+
+            def body2(self: Any) -> Any:
+                return 2
+            fd = icontract.ensure(other, error=lambda: Tag("E_other"))(body2)
+            fd = icontract.ensure(pred, error=lambda: Tag("E_derived"))(fd)
+            if kind_i == 0:
+                Base = icontract.DBCMeta("Base", (icontract.DBC,), {"m": fb})
+                Derived = icontract.DBCMeta("Derived", (Base,), {"m": fd})
+                w["call"] = lambda: Derived().m()
+            else:
+                Base = icontract.DBCMeta("Base", (icontract.DBC,), {"m": property(fb)})
+                Derived = icontract.DBCMeta("Derived", (Base,), {"m": property(fd)})
+                w["call"] = lambda: Derived().m
+            _SHARED[kind_i] = w
+    w["truth"] = {"pred": tp, "other": tq}
+    del w["log"][:]
+    try:
+        fresh(w["call"])
+        got = "ret"
+    except Tag as err:
+        got = err.label
+    # evaluation order: inherited pred (E_base), own other (E_other), own pred (E_derived)
+    want = "E_base" if not tp else ("E_other" if not tq else "ret")
+    ok = got == want
+    note(("shared_predicate", kind_i, got), got != "ret")
+    return ok, got != "ret"
+
+
 ALL = ["a0", "b0", "s0", "i0", "d1", "a1", "b1", "i1", "d2", "a2", "b2", "p0", "p1", "p2", "p3", "p4",
        "q0", "q1", "q2", "q3", "v0", "v1", "w0", "w1"]
 
@@ -115,6 +169,11 @@ def harnesses(tier: str) -> List[H]:
                  ("prop_get", False, "factory"), ("prop_set", False, "factory"), ("prop_del", False, "factory"),
                  ("new", False, "factory"), ("method", False, "default"), ("method", False, "class"),
                  ("static", True, "factory"), ("class", True, "factory")]
+    SP = ["kind_i", "tp", "tq"]
+    out.append(H("shared_predicate", bind(run_shared_predicate, (), SP, {}, SP), [I("kind_i", 0, 1), B("tp"), B("tq")],
+                 tiers=(tier,), timeout=200,
+                 family="method / property getter of a DBC hierarchy where the same predicate function object is the condition "
+                        "of an inherited and of an own postcondition (different errors)", family_size=2))
     for (kind, is_async, mode) in cfgs:
         base = "order_{}{}_{}".format(kind, "_async" if is_async else "", mode)
         if kind == "func":
